@@ -193,8 +193,9 @@ Qed.
    satisfy the executable guard [mod_ok (agent before) (association before) message]:
      - unknown SEID: always inside (rejected, nothing changes);
      - a parse loop stops (rejected before anything is written): inside when the failing IE is a Create PDR / FAR /
-       QER (only appends happened) and the stored slices are well formed (len <= cap) - then the stored rule lists are
-       unchanged although the backing arrays are the working copies';
+       QER, or an Update IE before which no Update had hit a stored rule (only appends happened), and the stored
+       slices are well formed (len <= cap) - then the stored rule lists are unchanged although the backing arrays
+       are the working copies';
      - all parse loops complete ([late_ok]): an Update PDR keeps the pdrLookup keys of the rule it replaces; stored
        FARs / QERs named by an Update carry the session's SEID and such a QER is application level; PDR ids are
        pairwise distinct when the message writes PDRs (created ids are fresh); the FARs (QERs) written by the message
@@ -237,12 +238,12 @@ Theorem C03_mod_image_step : forall burst a c seid cpf cp cf cq up uf uq rp rf r
 Proof. exact mod_late_image. Qed.
 Print Assumptions C03_mod_image_step.
 
-(* per step, rejected in the parse phase by a Create IE: nothing is written and the stored rule lists are unchanged
-   (F12 is the rejection AFTER the parse phase, where they are not) *)
+(* per step, rejected in the parse phase by a Create IE (or by an Update IE before any update took effect): nothing is
+   written and the stored rule lists are unchanged (F12 is the rejection AFTER the parse phase, where they are not) *)
 Theorem C03_mod_parse_reject_step : forall burst a c seid cpf cp cf cq up uf uq rp rf rq s0 w k a' c' o,
   find_session seid (c_sessions c) = Some s0 ->
   mod_loops a c s0 seid cp cf cq up uf uq = (w, S k) ->
-  early_ok s0 (S k) = true ->
+  early_ok s0 (S k) w cp cf cq = true ->
   handle_mod burst a c seid cpf cp cf cq up uf uq rp rf rq = Done (a', c', o) ->
   exists s', c_sessions c' = replace_session s' (c_sessions c) /\ s_lseid s' = s_lseid s0 /\
     a_tables a' = a_tables a /\ o_cmds o = [] /\ o_reply o = Some (RMod (new_rseid cpf s0) CAUSE_REJ) /\
